@@ -808,7 +808,49 @@ def newline_contract(P, R, rule='C16.LOOK.4'):
     R.floor(rule, 5, 'calls of the skipper')
 
 
+def empty_file(P, R, rule='C16.GRD.6'):
+    """An empty tree is written as an empty file.  fread(buf, size, 1, f) answers 0 for a size of 0 just as it does for
+    a failed read, so wherever the file's length goes to fread as the item size (or the count) and an answer of 0 is
+    taken for an error, the length is known not to be 0 at the call - or the answer is compared with the length itself."""
+    n = 0
+    for f in P.unit_fns(P.need_fn('conf_read').unit):
+        for s in f.sites():
+            calls = [s.ev] if s.ev['k'] == 'call' and s.ev.get('callee') in ('fread', 'read') else []
+            if not calls:
+                continue
+            c = calls[0]
+            a = c['args']
+            qs = [x for x in (a[1:3] if c['callee'] == 'fread' else a[2:3]) if const_of(x) is None]
+            if not qs:
+                continue
+            q = qs[0]
+            known = any(isinstance(g[0], dict) and sx(g[0]) == sx(q) and ((g[1] == '!=' and const_of(g[2]) == 0) or (g[1] == '>' and const_of(g[2]) == 0) or (g[1] == '>=' and (const_of(g[2]) or 0) >= 1)) for g in f.guards(s.bid))
+            # the variable the answer lands in, and the tests made of it
+            res = None
+            for t in f.sites():
+                if t.ev['k'] in ('store', 'decl'):
+                    val = t.ev.get('rhs') if t.ev['k'] == 'store' else t.ev.get('init')
+                    if isinstance(val, dict) and any(x.get('k') == 'callref' and x.get('ev') == c['id'] for x in walk(val)):
+                        res = t.ev['lhs']['name'] if t.ev['k'] == 'store' and is_var(t.ev.get('lhs')) else t.ev.get('var')
+            zero_is_error = False
+            if res is not None:
+                for b in f.out:
+                    for e in f.out[b]:
+                        r = e.rel()
+                        if r and is_var(r[0], res) and const_of(r[2]) is not None:
+                            k = const_of(r[2])
+                            # the edge on which the answer 0 lies leads to an error exit: decided by the shape `< 1`, `== 0`, `<= 0`, `!= 1`
+                            if (r[1] == '<' and k == 1) or (r[1] in ('==', '<=') and k == 0) or (r[1] == '!=' and k == 1):
+                                zero_is_error = True
+            else:
+                zero_is_error = True      # tested in place
+            n += 1
+            R.ob(rule, known or not zero_is_error, s, 'in %s the length %s handed to %s is known not to be 0 where an answer of 0 means failure' % (f.name, sx(q), c['callee']), key='empty-file:%s' % f.name)
+    R.floor(rule, 1, 'reads of the configuration file')
+
+
 def run(P, R, tier):
+    empty_file(P, R)
     reader_contract(P, R)
     token_alphabet(P, R)
     keyword_tables(P, R)
